@@ -1,5 +1,264 @@
+/-
+  Lemmas/CircuitD.lean — helper lemmas for Props/C03Circuit.lean: an open circuit closes exactly when the closer,
+  told of a successful probe, says so (the mirror image of `opens_core` in Lemmas/Opener.lean), and nothing closes
+  a circuit while ForceOpen is set.  Core Lean only.
+-/
 import CircuitModel.CircuitOps
 import CircuitModel.Logic
 import CircuitProofs.Props.CircuitCommon
+import CircuitProofs.Lemmas.Opener
+import CircuitProofs.Lemmas.CircuitB
 namespace CM
+open SpecCircuit CM.Props
+
+section
+variable {σo σc : Type} (O : OpenerI σo) (C : CloserI σc)
+
+/-! ### closing: an open circuit closes exactly when the closer says so -/
+
+/-- `close(ctx, now, false)` on an open, not overridden circuit: ask the closer, close iff it says yes -/
+theorem closeCircuit_spec (s : St σo σc) (t : Int) (hfo : s.1.cfg.forceOpen = false)
+    (hfc : s.1.cfg.forcedClosed = false) (hop : s.1.isOpen = true) :
+    ((closeCircuit O C s t false).1.isOpen = false ↔ (C.shouldClose s.1.closer t).2 = true) ∧
+    ((closeCircuit O C s t false).1.isOpen = false → Emit.closed t ∈ (closeCircuit O C s t false).2.emits) := by
+  have he : isOpenEff s.1 = true := by rw [isOpenEff_eq s.1 hfo hfc, hop]
+  unfold closeCircuit
+  rw [if_neg (by simp [he]), if_neg (by simp [hfo])]
+  cases h : C.shouldClose s.1.closer t with
+  | mk cl ans =>
+    cases ans with
+    | false => simp [hop]
+    | true => simp
+
+/-- the success branch of the classification chain: tell everyone, then ask the closer -/
+theorem okBranch_spec (s : St σo σc) (t total : Int) (hfo : s.1.cfg.forceOpen = false)
+    (hfc : s.1.cfg.forcedClosed = false) (hop : s.1.isOpen = true) :
+    let s' := emitRun O C s .success t total
+    let r := if isOpenEff s'.1 then closeCircuit O C s' t false else s'
+    (r.1.isOpen = false ↔ (C.shouldClose (C.onRun s.1.closer .success t total) t).2 = true) ∧
+    (r.1.isOpen = false → Emit.closed t ∈ r.2.emits) := by
+  intro s' r
+  have hfo' : s'.1.cfg.forceOpen = false := hfo
+  have hfc' : s'.1.cfg.forcedClosed = false := hfc
+  have hop' : s'.1.isOpen = true := hop
+  have he : isOpenEff s'.1 = true := by rw [isOpenEff_eq s'.1 hfo' hfc', hop']
+  have hr : r = closeCircuit O C s' t false := by simp [r, he]
+  rw [hr]
+  exact closeCircuit_spec O C s' t hfo' hfc' hop'
+
+/-- the failure / timeout branches on an open circuit: the opener is not even asked -/
+theorem errBranch_open (s : St σo σc) (k : Kind) (t total : Int) (hfo : s.1.cfg.forceOpen = false)
+    (hfc : s.1.cfg.forcedClosed = false) (hop : s.1.isOpen = true) :
+    (if !isOpenEff (emitRun O C s k t total).1 then attemptToOpen O C (emitRun O C s k t total) t
+      else emitRun O C s k t total).1.isOpen = true := by
+  have he : isOpenEff (emitRun O C s k t total).1 = true := by
+    rw [isOpenEff_eq (emitRun O C s k t total).1 hfo hfc]; exact hop
+  rw [he]
+  exact hop
+
+theorem not_closed_spec {r : St σo σc} {k : Kind} {P Q : Prop} (ht : r.1.isOpen = true) (hk : k ≠ .success) :
+    (r.1.isOpen = false ↔ (k = .success ∧ P)) ∧ (r.1.isOpen = false → Q) := by
+  rw [ht]
+  exact ⟨⟨fun h => (by cases h), fun h => absurd h.1 hk⟩, fun h => (by cases h)⟩
+
+theorem classify_close_spec (s : St σo σc) (ctx : CallerCtx) (sc : Script) (ret : Option ErrV) (start : Int)
+    (hfo : s.1.cfg.forceOpen = false) (hfc : s.1.cfg.forcedClosed = false) (hop : s.1.isOpen = true) :
+    let doneT := s.1.clock + 1
+    let total := s.1.clock - start
+    let k := classKind s.1.cfg ctx sc ret start doneT
+    let r := classify O C s ctx sc ret start
+    (r.1.isOpen = false ↔
+      (k = .success ∧ (C.shouldClose (C.onRun s.1.closer .success doneT total) doneT).2 = true)) ∧
+    (r.1.isOpen = false → Emit.closed doneT ∈ r.2.emits) := by
+  intro doneT total k r
+  let s2 : St σo σc := (now (now s).2).2
+  have hfo2 : s2.1.cfg.forceOpen = false := hfo
+  have hfc2 : s2.1.cfg.forcedClosed = false := hfc
+  have hop2 : s2.1.isOpen = true := hop
+  have hr0 : r = classify O C s ctx sc ret start := rfl
+  have hk0 : k = classKind s.1.cfg ctx sc ret start doneT := rfl
+  rw [classify_eq] at hr0
+  simp only [classKind] at hk0
+  simp only at hr0
+  by_cases h1 : isBadRet ret = true
+  · rw [if_pos h1] at hr0 hk0
+    rw [hr0, hk0]
+    exact not_closed_spec hop (by decide)
+  · rw [if_neg h1] at hr0 hk0
+    by_cases h2 : s.1.cfg.timeout > 0 ∧ start + s.1.cfg.timeout < doneT
+    · rw [if_pos h2] at hr0 hk0
+      rw [hr0, hk0]
+      exact not_closed_spec (errBranch_open O C s2 .timeout doneT total hfo2 hfc2 hop2) (by decide)
+    · rw [if_neg h2] at hr0 hk0
+      -- (the matcher of the interrupt test is file-local, so abstract the whole test instead of restating it)
+      generalize (ret.isSome && (ctxErrAfter ctx sc).isSome && !s.1.cfg.ignoreInterrupts && _) = b at hr0 hk0
+      cases b
+      · rw [if_neg Bool.false_ne_true] at hr0 hk0
+        by_cases h4 : ret.isSome = true
+        · rw [if_pos h4] at hr0 hk0
+          rw [hr0, hk0]
+          exact not_closed_spec (errBranch_open O C s2 .failure doneT total hfo2 hfc2 hop2) (by decide)
+        · rw [if_neg h4] at hr0 hk0
+          obtain ⟨e1, e2⟩ := okBranch_spec O C s2 doneT total hfo2 hfc2 hop2
+          rw [hr0, hk0]
+          refine ⟨?_, e2⟩
+          rw [e1]
+          exact ⟨fun h => ⟨rfl, h⟩, fun h => h.2⟩
+      · rw [if_pos (rfl : true = true)] at hr0 hk0
+        rw [hr0, hk0]
+        exact not_closed_spec hop (by decide)
+
+/-- `run` when the closer admitted the call (its state may have changed), Prevent did not veto, no throttling and
+    no panic: what remains is the classification chain -/
+theorem runStep_allowed_gen2 (s s1 s2 : St σo σc) (start : Int) (o : σo) (ctx : CallerCtx) (sc : Script)
+    (hn : now s = (start, s1)) (h1 : allowNewRun C s1 start = (s2, true))
+    (h2 : O.prevent s2.1.opener start = (o, false))
+    (hthr : ¬ (s2.1.cfg.maxConc ≥ 0 ∧ s2.1.conc + 1 > s2.1.cfg.maxConc)) (hnp : ∀ v, sc.act ≠ .panic v) :
+    let s3 : St σo σc := ({ s2.1 with opener := o, conc := s2.1.conc + 1, clock := s2.1.clock + sc.adv },
+      { s2.2 with runSeen := some (derivedSeen s2.1.cfg ctx start) })
+    let ret := actValue sc (ctxErrAfter ctx sc)
+    let s4 := classify O C s3 ctx sc ret start
+    let r := runStep O C s ctx (some sc)
+    r.1.1.isOpen = s4.1.isOpen ∧ r.1.2.emits = s4.2.emits ∧ r.2 = .ret ret := by
+  intro s3 ret s4 r
+  have hr : r = runStep O C s ctx (some sc) := rfl
+  simp only [runStep, hn, h1, h2, Bool.not_true, Bool.false_eq_true, if_false, hthr] at hr
+  rw [hr]
+  exact ⟨rfl, rfl, rfl⟩
+
+/-- C03, circuit level -/
+theorem closes_core (c : Circ σo σc) (op : ExecOp) (sc : Script)
+    (hen : c.cfg.disabled = false) (hfo : c.cfg.forceOpen = false) (hfc : c.cfg.forcedClosed = false)
+    (hopen : c.isOpen = true) (hrun : op.run = some sc) (hnp : ∀ v, sc.act ≠ .panic v)
+    (hallow : (C.allow c.closer c.clock).2 = true)
+    (hpv : O.prevent c.opener c.clock = (c.opener, false))
+    (hthr : ¬ (c.cfg.maxConc ≥ 0 ∧ c.conc + 1 > c.cfg.maxConc)) :
+    ((execute O C c op.ctx op.run op.fb).1.isOpen = false ↔
+      (expectedExecutedKind c.cfg op sc = .success ∧
+        (C.shouldClose (C.onRun (C.allow c.closer c.clock).1 .success (c.clock + 1 + sc.adv + 1) (sc.adv + 1))
+          (c.clock + 1 + sc.adv + 1)).2 = true)) ∧
+    ((execute O C c op.ctx op.run op.fb).1.isOpen = false →
+      Emit.closed (c.clock + 1 + sc.adv + 1) ∈ (execute O C c op.ctx op.run op.fb).2.1.emits) := by
+  obtain ⟨x1, x2⟩ := execute_keeps O C c op.ctx op.run op.fb hen
+  rw [hrun] at x1 x2 ⊢
+  let s1 : St σo σc := ({ c with clock := c.clock + 1 }, { readings := [] ++ [c.clock] })
+  let s2 : St σo σc := ({ s1.1 with closer := (C.allow c.closer c.clock).1 }, s1.2)
+  have h1 : allowNewRun C s1 c.clock = (s2, true) := by
+    have he : isOpenEff s1.1 = true := by rw [isOpenEff_eq s1.1 hfo hfc]; exact hopen
+    have hfo1 : s1.1.cfg.forceOpen = false := hfo
+    unfold allowNewRun
+    rw [if_neg (by simp [he]), if_neg (by simp [hfo1])]
+    show (({ s1.1 with closer := (C.allow c.closer c.clock).1 }, s1.2), (C.allow c.closer c.clock).2) = (s2, true)
+    rw [hallow]
+  obtain ⟨y1, y2, _⟩ := runStep_allowed_gen2 O C (c, {}) s1 s2 c.clock c.opener op.ctx sc rfl h1 hpv hthr hnp
+  obtain ⟨z1, z2⟩ := classify_close_spec O C
+    (({ s2.1 with opener := c.opener, conc := s2.1.conc + 1, clock := s2.1.clock + sc.adv },
+      { s2.2 with runSeen := some (derivedSeen s2.1.cfg op.ctx c.clock) }) : St σo σc)
+    op.ctx sc (actValue sc (ctxErrAfter op.ctx sc)) c.clock hfo hfc hopen
+  simp only at y1 y2 z1 z2
+  have ht : c.clock + 1 + sc.adv - c.clock = sc.adv + 1 := by omega
+  rw [← y1, ← x1, ht] at z1
+  rw [← y1, ← x1, ← y2] at z2
+  have hk := classKind_eq c.cfg op sc c.clock hrun
+  refine ⟨?_, fun h => x2 _ (z2 h)⟩
+  rw [← hk]
+  exact z1
+
+/-! ### ForceOpen: nothing closes the circuit -/
+
+/-- a fallback step delivers fallback events only -/
+theorem fallbackStep_emits (s : St σo σc) (ctx : CallerCtx) (runSc : Option Script) (err : ErrV) (fb : Option Script) :
+    ∀ e ∈ (fallbackStep s ctx runSc err fb).1.2.emits, e ∈ s.2.emits ∨ ∃ k t d, e = Emit.fb k t d := by
+  unfold fallbackStep
+  cases fb with
+  | none => exact fun e h => Or.inl h
+  | some sc =>
+    simp only
+    split
+    · exact fun e h => Or.inl h
+    · split
+      · intro e h
+        simp only [emitFb, now, List.mem_append, List.mem_singleton] at h
+        rcases h with h | h
+        · exact Or.inl h
+        · exact Or.inr ⟨_, _, _, h⟩
+      · split
+        · exact fun e h => Or.inl h
+        · split
+          · intro e h
+            simp only [emitFb, now, List.mem_append, List.mem_singleton] at h
+            rcases h with h | h
+            · exact Or.inl h
+            · exact Or.inr ⟨_, _, _, h⟩
+          · intro e h
+            simp only [emitFb, now, List.mem_append, List.mem_singleton] at h
+            rcases h with h | h
+            · exact Or.inl h
+            · exact Or.inr ⟨_, _, _, h⟩
+
+theorem isOpenEff_forceOpen (c : Circ σo σc) (h : c.cfg.forceOpen = true) : isOpenEff c = true := by
+  simp [isOpenEff, h]
+
+/-- under ForceOpen an Execute delivers no Closed notification and does not touch the flag -/
+theorem execute_forceOpen (c : Circ σo σc) (h : c.cfg.forceOpen = true) (ctx : CallerCtx) (run fb : Option Script) :
+    (∀ t, Emit.closed t ∉ (execute O C c ctx run fb).2.1.emits) ∧ (execute O C c ctx run fb).1.isOpen = c.isOpen := by
+  cases hd : c.cfg.disabled with
+  | true =>
+    cases run with
+    | none => rw [execute_disabled_none O C c hd]; exact ⟨fun t ht => (by cases ht), rfl⟩
+    | some sc => rw [execute_disabled_some O C c hd]; exact ⟨fun t ht => (by cases ht), rfl⟩
+  | false =>
+    cases run with
+    | none =>
+      rw [execute_enabled O C c hd]
+      exact ⟨fun t ht => (by cases ht), rfl⟩
+    | some sc =>
+      have hs := runStep_shed O C c ctx sc (actualAdmission_forceOpen C c h)
+      rw [execute_rejected O C c hd ctx (some sc) fb _ hs]
+      have hobs := shedState_obs O C c
+      have hio : (shedState O C c).1.isOpen = c.isOpen := by
+        unfold shedState
+        rw [allowNewRun_of_forceOpen C _ _ (by exact h)]
+        rfl
+      obtain ⟨k1, _⟩ := fallbackStep_keeps (shedState O C c) ctx (some sc) .circuitOpen fb
+      refine ⟨?_, by rw [k1, hio]⟩
+      intro t ht
+      rcases fallbackStep_emits (shedState O C c) ctx (some sc) .circuitOpen fb _ ht with h' | ⟨k, t', d, h'⟩
+      · rw [hobs] at h'
+        simp at h'
+      · cases h'
+
+theorem manualOpen_forceOpen (c : Circ σo σc) (h : c.cfg.forceOpen = true) :
+    (manualOpen O C c).2.emits = [] ∧ (manualOpen O C c).1.isOpen = c.isOpen := by
+  rw [manualOpen_noop O C c (Or.inl (isOpenEff_forceOpen c h))]
+  exact ⟨rfl, rfl⟩
+
+theorem manualClose_forceOpen (c : Circ σo σc) (h : c.cfg.forceOpen = true) :
+    (manualClose O C c).2.emits = [] ∧ (manualClose O C c).1.isOpen = c.isOpen := by
+  rw [manualClose_noop O C c (Or.inr h)]
+  exact ⟨rfl, rfl⟩
+
+/-- while ForceOpen is set no operation other than a reconfiguration delivers Closed or clears the flag -/
+theorem stepOp_forceOpen (c : Circ σo σc) (h : c.cfg.forceOpen = true) (op : CircOp σo σc)
+    (hop : ∀ cfg, op ≠ .setcfg cfg) :
+    (∀ t, Emit.closed t ∉ (stepOp O C c op).2) ∧ (stepOp O C c op).1.isOpen = c.isOpen := by
+  cases op with
+  | exec eop => exact execute_forceOpen O C c h eop.ctx eop.run eop.fb
+  | openC =>
+    obtain ⟨a, b⟩ := manualOpen_forceOpen O C c h
+    refine ⟨fun t ht => ?_, b⟩
+    have ht' : Emit.closed t ∈ (manualOpen O C c).2.emits := ht
+    rw [a] at ht'
+    cases ht'
+  | closeC =>
+    obtain ⟨a, b⟩ := manualClose_forceOpen O C c h
+    refine ⟨fun t ht => ?_, b⟩
+    have ht' : Emit.closed t ∈ (manualClose O C c).2.emits := ht
+    rw [a] at ht'
+    cases ht'
+  | setcfg cfg => exact absurd rfl (hop cfg)
+  | tick d => exact ⟨fun t ht => (by cases ht), rfl⟩
+  | env f g => exact ⟨fun t ht => (by cases ht), rfl⟩
+
+end
 end CM
